@@ -188,7 +188,7 @@ func worker(t *testing.T, p *Property, j job) {
 func selfExec(j job, timeout time.Duration) ([]byte, error) {
 	js, _ := json.Marshal(j)
 	cmd := exec.Command(os.Args[0], "-test.run", "^TestSim$", "-test.timeout", "0", "-test.count", "1")
-	cmd.Env = append(os.Environ(), "VERIF_JOB="+string(js), "GOMAXPROCS=2")
+	cmd.Env = append(os.Environ(), "VERIF_JOB="+string(js), "GOMAXPROCS=2", "GOGC=300")
 	done := make(chan struct{})
 	var out []byte
 	var err error
@@ -245,6 +245,11 @@ func driver(t *testing.T, p *Property, j job) int {
 				wj.BudgetS = left
 				if wj.MaxRuns == 0 {
 					wj.MaxRuns = 400
+				}
+				if p.Sim && wj.MaxRuns > 150 {
+					// finished runs leave goroutines blocked forever in their dead bubbles (with
+					// everything they reference): recycle the worker process often
+					wj.MaxRuns = 150
 				}
 				wj.Out = filepath.Join(tmp, fmt.Sprintf("w%d-%d.json", w, round))
 				out, err := selfExec(wj, time.Duration(left+120)*time.Second)
